@@ -154,6 +154,39 @@ def line_kills(facts, P):
     return ks
 
 
+_bal = {}
+
+
+def balanced_counter(P, k):
+    """The name of the one function that steps global k up and down, when every write of k in the program is an
+    increment or decrement in that function and every increment is followed by a decrement on all paths to the
+    function's exit: k has its entry value again whenever the function returns, nothing is carried anywhere."""
+    if (id(P), k) in _bal:
+        return _bal[(id(P), k)]
+    res = None
+    sites = []
+    for f in P.all_funcs():
+        if f.entry is None:
+            continue
+        for (k2, how, ln, n, b, i) in P.writes(f):
+            if k2 == k:
+                sites.append((f, how, n, b, i))
+    fs = {s[0] for s in sites}
+    if len(fs) == 1 and sites and all(is_incdec(s[2]) and s[1] == 'op' for s in sites):
+        f = sites[0][0]
+        ups = [s for s in sites if '+' in s[2][1]]
+        downs = [s for s in sites if '-' in s[2][1]]
+        if ups and downs:
+            var = nocast(ups[0][2][2])
+
+            def is_down(ex, var=var):
+                return any(is_incdec(m) and '-' in m[1] and nocast(m[2]) == var for m in walk_own(ex))
+            if all(f.must_pass(s[3], s[4], is_down)[0] for s in ups):
+                res = f.name
+    _bal[(id(P), k)] = res
+    return res
+
+
 def core_reset(chk, facts, rule, scope):
     P = facts.program('asl')
     ph, KP, KF, KX = phase_kills(facts, P)
@@ -169,6 +202,12 @@ def core_reset(chk, facts, rule, scope):
         f0, how0, ln0 = mod[k][0]
         loc = '%s:%d' % (du[k][1]['file'], du[k][1]['line'])
         cls = CLASS.get(k)
+        if cls is None and k not in killed:
+            bf = balanced_counter(P, k)
+            if bf:
+                chk.ob(rule, k, True, loc, 'depth counter: every write is ++/-- in %s(), and every ++ is followed by a -- on '
+                       'all paths to the return: the value is the same after each call' % bf)
+                continue
         if k in killed and not (cls is not None and cls[0] == 'EXIT'):
             chk.ob(rule, k, True, loc, 'assigned on every path of the %s initialisation' % scope)
             continue
